@@ -31,9 +31,14 @@ Ins == IF Ev.pre.code = <<>> THEN I("NONE", "", "", 0, 0, "") ELSE Ev.pre.code[1
 Running == TERMINATE \notin Pre.flags
 Op(o) == Running /\ Ins.op = o
 Cond == Op("INCMP") \/ Op("CATCH")            \* instructions that move conditionally
-\* outcomes of the iteration if the conditional move were taken / not taken (used by the properties that
-\* speak about the EFFECT of moves, so that a wrong DECISION is charged to C03 / C06 only)
-Alts == IF Cond THEN {Step.s, Iter([Pre EXCEPT !.force = "take"]).s, Iter([Pre EXCEPT !.force = "skip"]).s} ELSE {Step.s}
+\* Properties that speak about the EFFECT of a move (C04, C05, C06 flags) must not be tripped by a wrong DECISION to
+\* move (that is C03's / C06_Ctl's business).  The decision the real code took is observable: a taken move fetches the
+\* target's code.  So the effect is judged against the iteration with the conditional move FORCED the way the real
+\* code went: taken if a code lookup was logged, otherwise not taken (or taken-and-failed, which leaves no lookup).
+Moved == \E i \in DOMAIN Ev.ext : Ev.ext[i].kind = "code"
+Taken == Iter([Pre EXCEPT !.force = "take"]).s
+Skipped == Iter([Pre EXCEPT !.force = "skip"]).s
+Alts == IF ~Cond THEN {Step.s} ELSE IF Moved THEN {Taken} ELSE {Skipped, Taken}
 \* a step that crashed in the real code is charged to C08 alone
 Judged == IsInstr /\ ~Step.panic /\ ~Ev.panic
 
